@@ -79,6 +79,7 @@ func VH_C06_finalizers() {
 		l = l.With().Str("c", "v").Logger().Hook(vFieldHook{mode: zzverif.Choice(3)})
 	}
 	puts0 := zzverif.PoolPuts()
+	zzverif.TrackWrites(true)
 	e := l.Info()
 	vCurEvent = e
 	switch zzverif.Choice(8) {
@@ -120,6 +121,8 @@ func VH_C06_finalizers() {
 		zzverif.Assert(len(w.calls) == 0, "O3: at most one write per event")
 	}
 	_ = puts0
+	zzverif.Assert(l.context == nil || !zzverif.WroteInto(l.context, 0, cap(l.context)), "O2: building and writing an event never writes into the logger's context buffer, which every user of the logger shares")
+	zzverif.TrackWrites(false)
 	zzverif.Reach("C06/finalizers")
 }
 
